@@ -129,6 +129,12 @@ func main() {
 		}
 		xrun.Explore(r, name, xrun.Opts{Kind: "once", Bound: bound, Budget: 30, Recycle: 4,
 			Param: loopworld.Cfg{Native: native, OnlyOnce: true, LoadFaults: true, LoopFirst: true, MaxVisits: 1, AppOps: []string{"put-b"}}})
+		// an update of another kind (extension hook OtherUpdateSource) for an instance whose snapshot has not been merged yet:
+		// run-once still waits for that snapshot
+		if !r.Expired() {
+			xrun.Explore(r, name+"-other-kind-update", xrun.Opts{Kind: "once", Bound: bound, Budget: 30, Recycle: 4,
+				Param: loopworld.Cfg{Native: native, OnlyOnce: true, OtherUpdates: true, FirstLoadFails: true, LoopFirst: true, MaxVisits: 1, AppPoints: []string{"none"}}})
+		}
 		// a fresh instance (empty LMDB, no snapshot of its own) facing a bucket whose only / newest blob of the other
 		// instance is undecodable: the run must still end by itself
 		for _, corrupt := range []string{"only", "newest"} {
